@@ -1046,6 +1046,8 @@ func init() {
 	// Request.FormValue finds nothing.
 	E("(*github.com/labstack/echo/v4.DefaultBinder).Bind", func(fr *frame, args []value) value { return iface{} })
 	E("(*net/http.Request).FormValue", func(fr *frame, args []value) value { return "" })
+	// flushing a response has no observable effect on a collecting writer
+	E("(*github.com/labstack/echo/v4.Response).Flush", func(fr *frame, args []value) value { return nil })
 	E("runtime/debug.Stack", func(fr *frame, args []value) value { return []value{} })
 }
 
